@@ -48,6 +48,10 @@ enum Perturb {
   UtilSelfOfRule,
   UtilMutual,
   NoKind,
+  /// the utilities stay, the one reference in the rule (or its constraint) is renamed to an undefined id
+  DanglingRef,
+  /// a rewriter's rule refers to an undefined utility
+  DanglingRefInRewriter,
   UtilSelfHas, // different-node relation: either outcome, must not crash
 }
 
@@ -83,10 +87,13 @@ const ALL: &[Perturb] = &[
   Perturb::UtilMutual,
   Perturb::NoKind,
   Perturb::UtilSelfHas,
+  Perturb::DanglingRef,
+  Perturb::DanglingRef,
+  Perturb::DanglingRefInRewriter,
 ];
 
 /// a valid document; `object_fix` selects the fix form
-fn assemble(b: &Base, rng: &mut Rng, object_fix: bool, force_all: bool) -> Value {
+fn assemble(b: &Base, rng: &mut Rng, object_fix: bool, force_all: bool, simple_ref: bool) -> Value {
   let (va, vb) = *rng.pick(&[("A", "B"), ("X", "Y"), ("ARG", "NUM"), ("A1", "B_2")]);
   let mut rule = Map::new();
   rule.insert("pattern".into(), json!(format!("foo(${va}, ${vb})")));
@@ -94,21 +101,34 @@ fn assemble(b: &Base, rng: &mut Rng, object_fix: bool, force_all: bool) -> Value
   doc.insert("id".into(), json!("t"));
   doc.insert("language".into(), json!(b.lang));
   let with_util = force_all || rng.chance(2, 3);
+  let mut ref_in_constraint = false;
   let with_cons = force_all || rng.chance(1, 2);
   let chain = if force_all { 2 } else { rng.below(4) };
   let with_rw = force_all || rng.chance(1, 2);
   if with_util {
     let u = json!({"U": {"kind": b.kind_b}, "W": {"any": [{"matches": "U"}, {"kind": b.kind_a}]}});
     doc.insert("utils".into(), u);
-    match rng.below(3) {
+    // the reference to a utility sits in any position a rule can hold one
+    let pos = if simple_ref { rng.below(3) } else { rng.below(12) };
+    ref_in_constraint = pos == 8;
+    match pos {
       0 => rule.insert("has".into(), json!({"matches": "W", "stopBy": "end"})),
       1 => rule.insert("all".into(), json!([{"has": {"matches": "U", "stopBy": "end"}}])),
-      _ => rule.insert("not".into(), json!({"matches": "U"})),
+      2 => rule.insert("not".into(), json!({"matches": "U"})),
+      3 => rule.insert("inside".into(), json!({"matches": "W", "stopBy": "end"})),
+      4 => rule.insert(rng.pick(&["follows", "precedes"]).to_string(), json!({"matches": "U", "stopBy": "end"})),
+      5 => rule.insert("nthChild".into(), json!({"position": 1, "ofRule": {"matches": "U"}})),
+      6 => rule.insert("has".into(), json!({"kind": b.kind_b, "stopBy": {"matches": "U"}})),
+      7 => rule.insert("any".into(), json!([{"matches": "W"}, {"kind": b.kind_a}])),
+      8 => None,
+      9 => rule.insert("has".into(), json!({"nthChild": {"position": 1, "ofRule": {"any": [{"matches": "U"}, {"kind": b.kind_a}]}}, "stopBy": "end"})),
+      10 => rule.insert("not".into(), json!({"inside": {"kind": b.kind_a, "stopBy": {"not": {"matches": "W"}}}})),
+      _ => rule.insert("has".into(), json!({"all": [{"not": {"matches": "U"}}, {"kind": b.kind_a}], "stopBy": "end"})),
     };
   }
-  if with_cons {
+  if with_cons || ref_in_constraint {
     let mut c = Map::new();
-    c.insert(va.into(), json!({"kind": b.kind_a}));
+    c.insert(va.into(), if ref_in_constraint { json!({"any": [{"matches": "U"}, {"kind": b.kind_a}]}) } else { json!({"kind": b.kind_a}) });
     if rng.chance(1, 2) {
       c.insert(vb.into(), json!({"regex": "^[0-9]+$"}));
     }
@@ -197,6 +217,31 @@ fn perturb(doc: &mut Value, p: Perturb, b: &Base) -> bool {
       if u.is_empty() {
         doc.as_object_mut().unwrap().remove("utils");
       }
+      true
+    }
+    Perturb::DanglingRef => {
+      fn rename(v: &mut Value) -> bool {
+        match v {
+          Value::Object(m) => {
+            if let Some(x) = m.get_mut("matches") {
+              *x = json!("ZZ");
+              return true;
+            }
+            m.values_mut().any(rename)
+          }
+          Value::Array(a) => a.iter_mut().any(rename),
+          _ => false,
+        }
+      }
+      if doc.get("utils").is_none() {
+        return false;
+      }
+      rename(&mut doc["rule"]) || doc.get_mut("constraints").map(rename).unwrap_or(false)
+    }
+    Perturb::DanglingRefInRewriter => {
+      let Some(rws) = doc.get_mut("rewriters").and_then(|r| r.as_array_mut()) else { return false };
+      let Some(first) = rws.first_mut() else { return false };
+      first["rule"]["not"] = json!({"matches": "ZZ"});
       true
     }
     Perturb::RemoveRewriter => {
@@ -355,7 +400,7 @@ pub fn run(ctx: &Ctx, rep: &mut Report) {
     return;
   }
   let mut rng = ctx.rng("c12");
-  let n = ctx.budget(4000, 200000);
+  let n = ctx.budget(40000, 1000000);
   for i in 0..n {
     let b = &BASES[rng.below(BASES.len())];
     let p = ALL[(i + ctx.shard) % ALL.len()];
@@ -365,7 +410,7 @@ pub fn run(ctx: &Ctx, rep: &mut Report) {
       _ => rng.chance(1, 2),
     };
     let needs_all = !matches!(p, Perturb::None | Perturb::NoKind);
-    let mut doc = assemble(b, &mut rng, object_fix, needs_all);
+    let mut doc = assemble(b, &mut rng, object_fix, needs_all, p == Perturb::NoKind);
     if !perturb(&mut doc, p, b) {
       continue;
     }
